@@ -25,8 +25,8 @@ STORE_CALLS = {"model_table"}          # helpers that write the binding
 DESTRUCTIVE_CALLS = {"remove", "drop_table"}
 
 
-def _cond_facts(cond: ast.AST, label, key: str, binding: str) -> Set[str]:
-    """facts established by taking branch `label` of `cond`"""
+def _cond_facts(cond: ast.AST, label, key: str, binding: str, aliases: Set[str] = frozenset()) -> Set[str]:
+    """facts established by taking branch `label` of `cond`.  `aliases`: locals / calls that denote the keys of the binding"""
     facts: Set[str] = set()
 
     def ev(e, truth):
@@ -44,7 +44,7 @@ def _cond_facts(cond: ast.AST, label, key: str, binding: str) -> Set[str]:
             # a failed conjunction / satisfied disjunction: one of the operands decided; if each alternative
             # yields 'allowed' or 'absent', the disjunction of the two is what S1 needs
             if (isinstance(e.op, ast.And) and not truth) or (isinstance(e.op, ast.Or) and truth):
-                alts = [_cond_facts(x, truth, key, binding) for x in e.values]
+                alts = [_cond_facts(x, truth, key, binding, aliases) for x in e.values]
                 if alts and all(("allowed" in a) or ("absent" in a) for a in alts):
                     facts.add("allowed-or-absent")
             return
@@ -53,7 +53,7 @@ def _cond_facts(cond: ast.AST, label, key: str, binding: str) -> Set[str]:
             return
         if isinstance(e, ast.Compare) and len(e.ops) == 1 and isinstance(e.left, ast.Name) and e.left.id == key:
             comp = unparse(e.comparators[0])
-            if f"self.{binding}" in comp:
+            if f"self.{binding}" in comp or comp in aliases:
                 if isinstance(e.ops[0], ast.In):
                     facts.add("present" if truth else "absent")
                 elif isinstance(e.ops[0], ast.NotIn):
@@ -63,8 +63,9 @@ def _cond_facts(cond: ast.AST, label, key: str, binding: str) -> Set[str]:
                     facts.add("auto" if truth else "given")
                 elif isinstance(e.ops[0], ast.IsNot):
                     facts.add("given" if truth else "auto")
-        if isinstance(e, ast.Call) and isinstance(e.func, ast.Attribute) and e.func.attr == "table_exists":
-            pass
+        if isinstance(e, ast.Call) and isinstance(e.func, ast.Attribute) and e.func.attr == "table_exists" \
+                and any(isinstance(a, ast.Name) and a.id == key for a in e.args):
+            facts.add("db-present" if truth else "db-absent")
 
     if isinstance(label, bool):
         ev(cond, label)
@@ -95,9 +96,50 @@ def _effects(m, binding: str):
     return out
 
 
-def _check_writer(res, cname, m, binding):
+def _keys_aliases(cls, binding: str) -> Set[str]:
+    """expressions that denote the keys of the binding: self.keys() when the class's keys() returns them"""
+    out = set()
+    km = cls.find_method("keys")
+    if km is not None:
+        rets = [r.value for r in ast.walk(km.node) if isinstance(r, ast.Return) and r.value is not None]
+        if rets and all(f"self.{binding}" in unparse(r) for r in rets):
+            out.add("self.keys()")
+    return out
+
+
+def _helper_summary(cls, hname: str, binding: str) -> Optional[Set[str]]:
+    """facts a key returned by self.<hname>() carries on every path (tested after its last assignment), or None if not a key generator"""
+    h = cls.find_method(hname)
+    if h is None:
+        return None
+    rets = [r for r in ast.walk(h.node) if isinstance(r, ast.Return) and isinstance(r.value, ast.Name)]
+    if not rets:
+        return None
+    rv = rets[0].value.id
+    g = cfgmod.build(h.node)
+    aliases = set(_keys_aliases(cls, binding))
+    for st in ast.walk(h.node):
+        if isinstance(st, ast.Assign) and len(st.targets) == 1 and isinstance(st.targets[0], ast.Name) \
+                and (unparse(st.value) in aliases or f"self.{binding}" in unparse(st.value)):
+            aliases.add(st.targets[0].id)
+    summary: Optional[Set[str]] = None
+    for r in g.returns():
+        for path in g.paths(targets={r.id}, limit=5000):
+            since: Set[str] = set()
+            for (nid, label) in path[:-1]:
+                n = g.nodes[nid]
+                if n.kind == "test":
+                    since |= _cond_facts(n.cond, label, rv, binding, aliases)
+                elif n.kind == "stmt" and isinstance(n.stmt, ast.Assign) and any(isinstance(t, ast.Name) and t.id == rv for t in n.stmt.targets):
+                    since = set()
+            summary = since if summary is None else (summary & since)
+    return summary or set()
+
+
+def _check_writer(res, cname, m, binding, cls=None):
     g = cfgmod.build(m.node)
     key = "key"
+    aliases = _keys_aliases(cls, binding) if cls is not None else set()
     effects = _effects(m, binding)
     writes = [(st, k, dsc) for (st, k, dsc) in effects if k in ("store", "table-write")]
     if not writes:
@@ -116,7 +158,7 @@ def _check_writer(res, cname, m, binding):
             for (nid, label) in path[:-1]:
                 n = g.nodes[nid]
                 if n.kind == "test":
-                    f = _cond_facts(n.cond, label, key, binding)
+                    f = _cond_facts(n.cond, label, key, binding, aliases)
                     facts |= f
                     since_assign |= f
                     if "auto" in f:
@@ -124,10 +166,21 @@ def _check_writer(res, cname, m, binding):
                 elif n.kind == "stmt" and isinstance(n.stmt, ast.Assign) and any(
                         isinstance(t, ast.Name) and t.id == key for t in n.stmt.targets):
                     since_assign = set()
-                    facts -= {"absent", "present"}
+                    facts -= {"absent", "present", "db-absent", "db-present"}
+                    v = n.stmt.value
+                    # key = self.<generator>() : the generator's own freshness tests count
+                    if cls is not None and isinstance(v, ast.Call) and isinstance(v.func, ast.Attribute) and isinstance(v.func.value, ast.Name) \
+                            and v.func.value.id == "self" and not v.args:
+                        hs = _helper_summary(cls, v.func.attr, binding)
+                        if hs:
+                            since_assign |= hs
+                            facts |= hs
             if not ("allowed" in facts or "absent" in facts or "allowed-or-absent" in facts):
                 bad_s1 = path
-            if auto and "absent" not in since_assign:
+            # an automatic key must be fresh in the namespace this effect writes into: the binding for a store,
+            # the database's tables for a table write
+            need = "db-absent" if kind == "table-write" else "absent"
+            if auto and need not in since_assign:
                 bad_s2 = path
         if n_paths == 0:
             raise AnalysisError(f"{cname}.{m.name}: store effect unreachable")
@@ -140,9 +193,10 @@ def _check_writer(res, cname, m, binding):
         else:
             res.ok("C20-S1", f"{inst}: every one of {n_paths} paths established 'overwrite allowed' or 'key absent'")
         if bad_s2 is not None:
+            where_ = "the tables of the database (table_exists)" if kind == "table-write" else f"the existing keys (self.{binding})"
             res.fail_at("C20-S2", m, f"auto-key-freshness:{kind}:{dsc}",
-                        f"{inst} is reachable with an automatically generated key that was never tested against the existing "
-                        f"keys after its last assignment: an auto-named entry can replace an existing one", st)
+                        f"{inst} is reachable with an automatically generated key that was never tested against {where_} "
+                        f"after its last assignment: an auto-named entry can replace an existing one", st)
         else:
             res.ok("C20-S2", f"{inst}: auto-generated keys are tested for freshness on every path")
     # ---- S3 store after success
@@ -183,7 +237,7 @@ def run(program, res, tier):
             if m is None:
                 raise AnalysisError(f"anchor vanished: {cname}.{mname}")
             res.analysed(m)
-            _check_writer(res, cname, m, binding)
+            _check_writer(res, cname, m, binding, cls)
         # remove: binding deleted, and (DBSpace) after the fallible drop
         rm = cls.methods.get("remove")
         if rm is None:
